@@ -377,6 +377,21 @@ def check_pair(a, b, predkind, rng, rec, variant=None):
                 for s in ph.statements:
                     names |= set(stmt_names(s))
             pred, pred_o = make_pred(predkind, random.Random(str(sorted(names)) + predkind), sorted(names))
+            hist = random.Random(str(sorted(names)) + "used").random()
+            if hist < 0.5:
+                # the operands have been USED before they are fused (printed, their roots and id maps looked at,
+                # one of them lowered by a generator): what a description remembers about itself must not end up
+                # in the fusion result
+                from dagrt.codegen import PythonCodeGenerator
+                for dg in ((d1, d2) if hist < 0.3 else (d1,)):
+                    str(dg)
+                    for ph in dg.phases.values():
+                        ph.depends_on, ph.id_to_stmt
+                try:
+                    PythonCodeGenerator(class_name="Before")(d1)
+                except Exception:
+                    pass
+                rec.count("pairs_used_before_fusion")
             try:
                 if pred is None:
                     fused = fuse_two_dags(d1, d2)
